@@ -121,6 +121,16 @@ Example C04_nonvacuous :
    lawp (fold_left (merge MaxAbs) [([], V2 0 1)] ([], vzero D1)) = SNone).
 Proof. vm_compute. repeat split. Qed.
 
+(* ---- app stage: the executable judgement of coq/Check is sound for the model on every scenario of the profile, and transfers
+   to every trace that agrees with the model's run ---- *)
+From BEI Require Check.C04c Proofs.JudgeC04P.
+Theorem C04_app_judgement_sound : forall sc, JudgeC04P.profile_C04b sc = true -> C04c.ok (sc, App.trace (App.run sc)) = 0%Z.
+Proof. exact JudgeC04P.C04_app_judgement_sound. Qed.
+
+Theorem C04_app_judgement_transfer : forall sc t, JudgeC04P.profile_C04b sc = true -> App.agree_full (sc, t) = true -> C04c.ok (sc, t) = 0%Z.
+Proof. exact JudgeC04P.C04_app_judgement_transfer. Qed.
+
+
 Print Assumptions C04_modifiers_in_order.
 Print Assumptions C04_conditions_in_order.
 Print Assumptions C04_own_tracker.
@@ -179,3 +189,5 @@ Proof.
   - intros Hreg. destruct (most_significant_win _ _ _ Hreg) as (M1 & M2 & _). split; [exact M1 | exact M2].
 Qed.
 Print Assumptions C04_every_evaluation_of_a_frame.
+Print Assumptions C04_app_judgement_sound.
+Print Assumptions C04_app_judgement_transfer.
